@@ -1105,3 +1105,90 @@ func checkByteClassOwners(c *Check, P *CProgram, r *Rule) {
 		r.AddAt(Undecided, "C utf8 classification functions", "-", "fewer than 5 of the verified classification functions were found")
 	}
 }
+
+// ---------- R12.9: the encode buffer after a failed encoding ----------
+
+// utf8_char_to_string(buf, c) writes nothing into buf when c cannot be encoded (it returns (size_t)-1). A function that
+// goes on after the failure (treating the character as empty) must not read buf as a C string on that path unless it
+// terminated it first: enumerated over the paths of every caller (if/else paths; memcpy/memmove with an explicit length
+// are not string reads).
+func checkEncodeBufferAfterFailure(c *Check, P *CProgram, r *Rule) {
+	var names []string
+	for n := range P.Funcs {
+		names = append(names, n)
+	}
+	sort.Strings(names)
+	n := 0
+	for _, name := range names {
+		f := P.Funcs[name]
+		if f.Body == nil || !strings.HasPrefix(f.Unit, "lib/") {
+			continue
+		}
+		// the call `v = utf8_char_to_string(buf, ...)` with buf a local array
+		buf, res := "", ""
+		f.Body.walk(func(m *CNode) bool {
+			if m.Kind == "VarDecl" && len(m.Inner) > 0 {
+				if call := cstrip(m.Inner[len(m.Inner)-1]); call != nil && call.Kind == "CallExpr" && call.calleeName() == "utf8_char_to_string" {
+					if a := call.args(); len(a) > 0 {
+						if b := cstrip(a[0]); b != nil && b.Kind == "DeclRefExpr" {
+							buf, res = b.text(), m.Name
+						}
+					}
+				}
+			}
+			return true
+		})
+		if buf == "" || res == "" {
+			continue
+		}
+		paths, decided := cEnumPaths(f, 256)
+		if !decided {
+			continue // loops/switches: not decided here (R5.10 covers the use of the failure value as a length)
+		}
+		n++
+		var bad []string
+		for _, p := range paths {
+			failed, terminated := false, false
+			for _, a := range p {
+				if a.cond != nil {
+					cn := cstrip(a.cond)
+					if cn != nil && cn.Kind == "BinaryOperator" && len(cn.Inner) == 2 && cstrip(cn.Inner[0]) != nil && cstrip(cn.Inner[0]).text() == res {
+						if k, ok := cIntValue(cn.Inner[1]); ok && k == -1 {
+							if (cn.Opcode == "==" && a.truth) || (cn.Opcode == "!=" && !a.truth) {
+								failed = true
+							}
+						}
+					}
+					continue
+				}
+				a.stmt.walk(func(m *CNode) bool {
+					if m.Kind == "BinaryOperator" && m.Opcode == "=" && len(m.Inner) == 2 {
+						if l := cstrip(m.Inner[0]); l != nil && (l.Kind == "ArraySubscriptExpr" || (l.Kind == "UnaryOperator" && l.Opcode == "*")) && strings.HasPrefix(l.text(), buf) {
+							terminated = true
+						}
+					}
+					if m.Kind == "CallExpr" {
+						cal := m.calleeName()
+						if cal == "memcpy" || cal == "memmove" || cal == "utf8_char_to_string" {
+							return true
+						}
+						for _, arg := range m.args() {
+							if b := cstrip(arg); b != nil && b.Kind == "DeclRefExpr" && b.text() == buf && failed && !terminated {
+								bad = append(bad, fmt.Sprintf("line %d: %s reads %s as a string on the path where the character could not be encoded and nothing was written to it", m.line, cal, buf))
+							}
+						}
+					}
+					return true
+				})
+			}
+		}
+		st := OK
+		if len(bad) > 0 {
+			st = Bad
+		}
+		r.AddAt(st, "C "+name+"|"+buf+" after a failed encoding", f.Pos(), pickMsg(st, "the buffer is terminated before it is read as a string, or not read / "+strings.Join(uniq(bad), "; ")+": strlen runs over uninitialised stack bytes (a Text with garbage content, or a read past the 5-byte buffer)"))
+	}
+	if n == 0 {
+		r.AddAt(Undecided, "C callers of utf8_char_to_string", "-", "no caller with a local buffer and a stored result found")
+	}
+}
